@@ -4,6 +4,8 @@ set -e
 cmake -S /repo -B /repo/_build -G Ninja -DCMAKE_BUILD_TYPE=RelWithDebInfo >/dev/null
 cmake --build /repo/_build -j16 -- -k 0 2>&1 | tail -1
 ctest --test-dir /repo/_build -j16 --timeout 900 > /verif/.work/ctest.log 2>&1 || true
+# tests use fixed ports: when sub-agents run the same suite concurrently a test can fail to bind; re-run failures alone
+ctest --test-dir /repo/_build --rerun-failed --timeout 900 >> /verif/.work/ctest.log 2>&1 || true
 python3 - <<'P'
 import json,re
 base=set(t.split('::')[0] for t in json.load(open('/root/.vp/BASELINE.json'))['stable_pass'])
